@@ -27,6 +27,7 @@ from . import smt
 from .sym import SBool, SInt, SReal, OutOfReach, Raised, cur, _frac, is_reallike
 
 ATOMS = {}
+REWRITES = []        # (pattern word, replacement word): definitional equalities of contracts, e.g. A@Omega -> U@R from a QR contract
 
 
 class Atom:
@@ -43,6 +44,15 @@ class Atom:
 
 def reset_atoms():
     ATOMS.clear()
+    del REWRITES[:]
+
+
+def add_rewrite(pattern, replacement):
+    """Register  pattern -> replacement  (both words; the starred reverse is added too)."""
+    pattern, replacement = tuple(pattern), tuple(replacement)
+    REWRITES.append((pattern, replacement))
+    star = lambda w: tuple((n, not s_) for n, s_ in reversed(w))
+    REWRITES.append((star(pattern), star(replacement)))
 
 
 def dims_equal(a, b, what="conformable"):
@@ -64,8 +74,26 @@ def _letter_dims(l):
     return (a.cols, a.rows) if l[1] else (a.rows, a.cols)
 
 
+def _apply_rewrites(w):
+    changed = True
+    while changed:
+        changed = False
+        for pat, rep in REWRITES:
+            L = len(pat)
+            for i in range(len(w) - L + 1):
+                if tuple(w[i:i + L]) == pat:
+                    w = list(w[:i]) + list(rep) + list(w[i + L:])
+                    changed = True
+                    break
+            if changed:
+                break
+    return w
+
+
 def normalize_word(w):
     w = list(w)
+    if REWRITES:
+        w = _apply_rewrites(w)
     # sym atoms are never starred
     for i, (n, s) in enumerate(w):
         if s and ATOMS[n].kind in ("sym",):
@@ -332,8 +360,27 @@ def trace(p: NC):
     return total
 
 
+def _syntactically_self_adjoint(p: NC):
+    q = p.T
+    for w in p.words() | q.words():
+        a, b = p.t.get(w, Fraction(0)), q.t.get(w, Fraction(0))
+        if isinstance(a, Fraction) and isinstance(b, Fraction):
+            if a != b:
+                return False
+        elif not (isinstance(a, SReal) and isinstance(b, SReal) and a.z.eq(b.z)):
+            return False
+    return True
+
+
 def fro2(p: NC):
     """Squared Frobenius norm  tr(p* p)  (>= 0 is recorded as an axiom)."""
+    if isinstance(p.rows, int) and isinstance(p.cols, int) and p.rows == 1 and p.cols == 1 and _syntactically_self_adjoint(p):
+        # a 1x1 self-adjoint quaternion matrix is a real number r = tr(p); its squared modulus is r^2
+        r = trace(p)
+        val = r * r
+        if isinstance(val, SReal):
+            cur().assume(val.z >= 0, base=True)
+        return val
     val = trace(p.T @ p)
     if isinstance(val, SReal):
         cur().assume(val.z >= 0, base=True)
